@@ -12,6 +12,8 @@ max_edge_length / min_points / smoothing settings, several coherence lengths):
 """
 from __future__ import annotations
 
+import os
+
 import numpy as np
 from shapely.geometry import Point
 from shapely.geometry import Polygon as SPolygon
@@ -121,6 +123,17 @@ def check_mesh(ctx, cfg, with_model=True):
     else:
         dev = zoo.make_device(cfg["kind"], ctx.rng, max_edge_length=cfg["mel"], smooth=cfg["smooth"], xi=cfg.get("xi", 0.5), min_points=cfg.get("min_points"))
     first = check_device_mesh(ctx, cfg, dev, with_model=with_model)
+    # ... and for the device read back from a file (the mesh is restored from stored arrays, not re-derived)
+    import h5py
+    path_ = os.path.join(str(ctx.work), "c07_dev.h5")
+    if os.path.exists(path_):
+        os.remove(path_)
+    with h5py.File(path_, "x") as f_:
+        dev.to_hdf5(f_.create_group("device"))
+    with h5py.File(path_, "r") as f_:
+        back_ = tdgl.Device.from_hdf5(f_["device"])
+    ctx.count("meshes_checked_after_reload")
+    first = first or check_device_mesh(ctx, dict(cfg, moved="reloaded-from-hdf5"), back_, with_model=False)
     # the same relations hold for the mesh a device carries after it has been moved: in place, and inside the
     # `translation` context manager (and again after leaving it)
     moved = dict(cfg, moved="translate-inplace")
